@@ -21,7 +21,7 @@ EMB = None
 
 
 def acc(kind, names):
-    return {"good": "(AOk %s)" % ec.cbl([list(n.encode()) for n in names]), "empty": "(AOk [])", "blank": "(AOk [])", "comment": "(AOk [])", "emptylist": "(AOk [])", "missing": "ANotExist", "absent": "ANotExist", "dir": "AOtherRead",
+    return {"good": "(AOk %s)" % ec.cbl([list(n.encode()) for n in names]), "empty": "(AOk [])", "blank": "(AOk [])", "comment": "(AOk [])", "emptylist": "(AOk [])", "dup": "(AOk %s)" % ec.cbl([list(n.encode()) for n in ["git status", "my cmd", "my cmd"]]), "missing": "ANotExist", "absent": "ANotExist", "dir": "AOtherRead",
             "unreadable": "APermission", "malformed": "AParse"}[kind]
 
 
